@@ -3,6 +3,7 @@
 package skiplist
 
 import (
+	"math/rand"
 	"sync/atomic"
 	"unsafe"
 )
@@ -102,3 +103,9 @@ var VerifPointNames = map[int]string{
 	vpIterNext:    "ITER_NEXT",
 	vpIterRefresh: "ITER_REFRESH",
 }
+
+// VerifSetRand replaces a segment's level generator source.
+func (s *Segment) VerifSetRand(src rand.Source) { s.rand = rand.New(src) }
+
+// VerifNodeLevel exposes a node's height.
+func VerifNodeLevel(n *Node) int { return n.Level() }
